@@ -1666,6 +1666,8 @@ func (c *Configuration) buildVirtualServerRoutes(vs *conf_v1.VirtualServer) ([]*
 	var vsrs []*conf_v1.VirtualServerRoute
 	var warnings []string
 
+	attached := make(map[string]bool)
+
 	for _, r := range vs.Spec.Routes {
 		if r.Route == "" {
 			continue
@@ -1691,6 +1693,15 @@ func (c *Configuration) buildVirtualServerRoutes(vs *conf_v1.VirtualServer) ([]*
 			warnings = append(warnings, warning)
 			continue
 		}
+
+		// the same VirtualServerRoute can be referenced by more than one route (by name and by namespace/name, or under
+		// nested paths); attaching it twice would generate its upstreams and locations twice, which NGINX rejects.
+		if attached[vsrKey] {
+			warning := fmt.Sprintf("VirtualServerRoute %s is referenced more than once", vsrKey)
+			warnings = append(warnings, warning)
+			continue
+		}
+		attached[vsrKey] = true
 
 		vsrs = append(vsrs, vsr)
 	}
